@@ -48,6 +48,46 @@ FUNCS = [
     ('src/ir/types.rs', r'pub fn get_section_data_mut(?=\(&mut self, section_id: CustomSectionID\))', 'custom_get_section_data_mut', 'text'),
     ('src/ir/types.rs', r'pub fn add(?=\(&mut self, section: CustomSection\b)', 'custom_add', 'text'),
     ('src/ir/module/module_functions.rs', r'pub\(crate\) fn add_local\b', 'add_local_text', 'text'),
+    # the per-instruction and per-function injection lists (M3 `inject`, `clearInstr`, `hasInstr`): word for word; the fifth entry is
+    # the `impl` header the function is searched behind (the names repeat between the two flag types)
+    ('src/ir/types.rs', r'pub fn has_instr\b', 'func_flag_has_instr', 'text', r"impl<'a> FuncInstrFlag<'a> \{"),
+    ('src/ir/types.rs', r'pub fn add_instr\b', 'func_flag_add_instr', 'text', r"impl<'a> FuncInstrFlag<'a> \{"),
+    ('src/ir/types.rs', r'pub fn has_instr\b', 'flag_has_instr', 'text', r"impl<'a> InstrumentationFlag<'a> \{"),
+    ('src/ir/types.rs', r'pub\(crate\) fn check_special_is_resolved\b', 'flag_check_special_is_resolved', 'text', r"impl<'a> InstrumentationFlag<'a> \{"),
+    ('src/ir/types.rs', r'pub fn add_instr\b', 'flag_add_instr', 'text', r"impl<'a> InstrumentationFlag<'a> \{"),
+    ('src/ir/types.rs', r'pub fn clear_instr\b', 'flag_clear_instr', 'text', r"impl<'a> InstrumentationFlag<'a> \{"),
+    ('src/ir/types.rs', r'pub\(crate\) fn is_block_style_op\b', 'flag_is_block_style_op', 'text', r"impl<'a> InstrumentationFlag<'a> \{"),
+    ('src/ir/types.rs', r'fn is_branching_op\b', 'flag_is_branching_op', 'text', r"impl<'a> InstrumentationFlag<'a> \{"),
+    ('src/ir/types.rs', r'pub fn add_instr\b', 'instruction_add_instr', 'text', r"impl<'a, 'b> Instruction<'a>"),
+    ('src/ir/types.rs', r'pub\(crate\) fn empty_block_alt\b', 'instruction_empty_block_alt', 'text', r"impl<'a, 'b> Instruction<'a>"),
+    # the location-addressed injection API of the function modifier and of the two iterators, word for word
+    ('src/ir/function.rs', r'fn inject\b', 'modifier_inject', 'text', r"impl<'b> Inject<'b> for FunctionModifier"),
+    ('src/ir/function.rs', r'fn inject_at\b', 'modifier_inject_at', 'text', r"impl<'b> InjectAt<'b> for FunctionModifier"),
+    ('src/ir/function.rs', r'fn set_instrument_mode_at\b', 'modifier_set_instrument_mode_at', 'text', r"impl<'b> Instrumenter<'b> for FunctionModifier"),
+    ('src/ir/function.rs', r'fn set_func_instrument_mode\b', 'modifier_set_func_instrument_mode', 'text', r"impl<'b> Instrumenter<'b> for FunctionModifier"),
+    ('src/ir/function.rs', r'fn clear_instr_at\b', 'modifier_clear_instr_at', 'text', r"impl<'b> Instrumenter<'b> for FunctionModifier"),
+    ('src/ir/function.rs', r'fn add_instr_at\b', 'modifier_add_instr_at', 'text', r"impl<'b> Instrumenter<'b> for FunctionModifier"),
+    ('src/ir/function.rs', r'fn empty_alternate_at\b', 'modifier_empty_alternate_at', 'text', r"impl<'b> Instrumenter<'b> for FunctionModifier"),
+    ('src/ir/function.rs', r'fn empty_block_alt_at\b', 'modifier_empty_block_alt_at', 'text', r"impl<'b> Instrumenter<'b> for FunctionModifier"),
+    ('src/iterator/module_iterator.rs', r'fn inject\b', 'moditer_inject', 'text', r"impl<'b> Inject<'b> for ModuleIterator"),
+    ('src/iterator/module_iterator.rs', r'fn inject_at\b', 'moditer_inject_at', 'text', r"impl<'a> InjectAt<'a> for ModuleIterator"),
+    ('src/iterator/module_iterator.rs', r'fn set_instrument_mode_at\b', 'moditer_set_instrument_mode_at', 'text', r"impl<'a> Instrumenter<'a> for ModuleIterator"),
+    ('src/iterator/module_iterator.rs', r'fn set_func_instrument_mode\b', 'moditer_set_func_instrument_mode', 'text', r"impl<'a> Instrumenter<'a> for ModuleIterator"),
+    ('src/iterator/module_iterator.rs', r'fn clear_instr_at\b', 'moditer_clear_instr_at', 'text', r"impl<'a> Instrumenter<'a> for ModuleIterator"),
+    ('src/iterator/module_iterator.rs', r'fn add_instr_at\b', 'moditer_add_instr_at', 'text', r"impl<'a> Instrumenter<'a> for ModuleIterator"),
+    ('src/iterator/module_iterator.rs', r'fn empty_alternate_at\b', 'moditer_empty_alternate_at', 'text', r"impl<'a> Instrumenter<'a> for ModuleIterator"),
+    ('src/iterator/module_iterator.rs', r'fn empty_block_alt_at\b', 'moditer_empty_block_alt_at', 'text', r"impl<'a> Instrumenter<'a> for ModuleIterator"),
+    ('src/iterator/component_iterator.rs', r'fn inject\b', 'compiter_inject', 'text', r"impl<'b> Inject<'b> for ComponentIterator"),
+    ('src/iterator/component_iterator.rs', r'fn inject_at\b', 'compiter_inject_at', 'text', r"impl<'b> InjectAt<'b> for ComponentIterator"),
+    ('src/iterator/component_iterator.rs', r'fn set_instrument_mode_at\b', 'compiter_set_instrument_mode_at', 'text', r"impl<'b> Instrumenter<'b> for ComponentIterator"),
+    ('src/iterator/component_iterator.rs', r'fn set_func_instrument_mode\b', 'compiter_set_func_instrument_mode', 'text', r"impl<'b> Instrumenter<'b> for ComponentIterator"),
+    ('src/iterator/component_iterator.rs', r'fn clear_instr_at\b', 'compiter_clear_instr_at', 'text', r"impl<'b> Instrumenter<'b> for ComponentIterator"),
+    ('src/iterator/component_iterator.rs', r'fn add_instr_at\b', 'compiter_add_instr_at', 'text', r"impl<'b> Instrumenter<'b> for ComponentIterator"),
+    ('src/iterator/component_iterator.rs', r'fn empty_alternate_at\b', 'compiter_empty_alternate_at', 'text', r"impl<'b> Instrumenter<'b> for ComponentIterator"),
+    ('src/iterator/component_iterator.rs', r'fn empty_block_alt_at\b', 'compiter_empty_block_alt_at', 'text', r"impl<'b> Instrumenter<'b> for ComponentIterator"),
+    ('src/ir/module/module_functions.rs', r'pub fn add_instr\b', 'localfn_add_instr', 'text'),
+    ('src/ir/module/module_functions.rs', r'pub fn clear_instr_at\b', 'localfn_clear_instr_at', 'text'),
+    ('src/ir/types.rs', r'pub fn clear_instr\b', 'body_clear_instr', 'text', r"impl<'a, 'b> Body<'a>"),
 ]
 
 TOK = re.compile(r'''
@@ -69,8 +109,14 @@ def die(m):
     sys.exit('translator(api): ' + m)
 
 
-def fn_body_at(src, pat):
-    m = re.search(pat, src)
+def fn_body_at(src, pat, anchor=None):
+    start = 0
+    if anchor:
+        a = re.search(anchor, src)
+        if not a:
+            die(f'no impl header matches {anchor}')
+        start = a.end()
+    m = re.compile(pat).search(src, start)
     if not m:
         die(f'no function matches {pat}')
     i = src.index('(', m.end())
@@ -155,7 +201,7 @@ def main():
     for f, pat, name, *how in FUNCS:
         if f not in cache:
             cache[f] = strip(open(os.path.join(REPO, f)).read())
-        o = (text if how else outline)(fn_body_at(cache[f], pat))
+        o = (text if how else outline)(fn_body_at(cache[f], pat, how[1] if len(how) > 1 else None))
         if not o:
             die(f'{name}: empty skeleton')
         rows.append((name, o))
